@@ -567,11 +567,13 @@ impl PaZipCompressor {
 
     /// Decompress PA-Zip compressed data
     pub fn decompress(&mut self, input: &[u8], output: &mut Vec<u8>) -> Result<()> {
+        // the output always receives exactly the decoded payload: clear it before the
+        // empty-input return as well (a reused buffer kept the previous record otherwise)
+        output.clear();
         if input.is_empty() {
             return Ok(());
         }
 
-        output.clear();
         output.reserve(input.len() * 2); // Conservative estimate for decompressed size
 
         let mut pos = 0;
